@@ -190,13 +190,15 @@ func Explode(dstDir string, inputShard string) error {
 	}
 
 	// best effort rename shards.
+	var renameErr error
 	for tmpFn, dstFn := range exploded {
 		if err := os.Rename(tmpFn, dstFn); err != nil {
 			log.Printf("explode: rename failed: %s", err)
+			renameErr = errors.Join(renameErr, err)
 		}
 	}
 
-	return nil
+	return renameErr
 }
 
 type shardBuilderFunc func(ib *ShardBuilder)
